@@ -20,7 +20,6 @@ import (
 
 	"github.com/gogo/protobuf/proto"
 	"github.com/influxdata/influxdb/coordinator/internal"
-	"github.com/influxdata/influxdb/storage/reads/datatypes"
 	"pgregory.net/rapid"
 	"verifkit"
 )
@@ -165,26 +164,6 @@ func vC15Unsafe(frames []*vC15Frame) string {
 		}
 		if f.kind.updateOf != nil && f.kind.updateOf(f.req) {
 			return "joinCluster-update-retry-loop"
-		}
-	}
-	return ""
-}
-
-// vC15Known returns the signature of a known finding that the stream would trigger ("" if none).
-// Such streams are excluded by construction from the main campaign and counted; each signature has
-// a directed test.
-func vC15Known(frames []*vC15Frame) string {
-	if os.Getenv("VERIF_C15_NOEXCLUDE") != "" {
-		return ""
-	}
-	for _, f := range frames {
-		if r, ok := f.req.(*StoreReadGroupRequest); ok {
-			if g := r.Request.Group; g != datatypes.GroupNone && g != datatypes.GroupBy {
-				return "readgroup-unknown-group-mode-panics"
-			}
-			if a := r.Request.Aggregate; a != nil && a.Type != datatypes.AggregateTypeSum && a.Type != datatypes.AggregateTypeCount {
-				return "readgroup-invalid-aggregate-panics"
-			}
 		}
 	}
 	return ""
@@ -389,10 +368,6 @@ func TestVerifC15HandleConn(t *testing.T) {
 		if why := vC15Unsafe(frames); why != "" {
 			st.Class("skipped:"+why, 1)
 			rt.Skip(why)
-		}
-		if sig := vC15Known(frames); sig != "" {
-			st.Exclude(sig)
-			rt.Skip("known finding excluded: " + sig)
 		}
 		v := vC15Judge(b, stream, frames)
 		if v.sig != "" {
@@ -657,7 +632,7 @@ func FuzzVerifC15HandleConn(f *testing.F) {
 			return
 		}
 		frames, _ := vC15Walk(stream)
-		if vC15Unsafe(frames) != "" || vC15Known(frames) != "" {
+		if vC15Unsafe(frames) != "" {
 			return
 		}
 		for _, fr := range frames {
